@@ -114,10 +114,16 @@ def run(ctx):
     # r4 clamp
     R = ctx.body('FlyClientPDF::random_sample')
     ge = P.call_sites(R, lambda k, t: k in ('<U256 as PartialOrd>::ge', '<U256 as PartialOrd>::gt'))
-    ctx.floor('C15.r4', 'sample >= boundary comparison', len(ge), 1)
+    if not ge:
+        # a missing guard is a violation, not a missing anchor (seeded C15-4 replaced the comparison by max/min clamps and dropped
+        # the floor that kept the boundary above start + 1)
+        ctx.ob('C15.r4', R.name, 'a sample that reaches the boundary is clamped to boundary - 1 (comparison sample >= boundary)', False,
+               problem='no U256 >= / > comparison in random_sample')
+        ge = None
     subs = [(b, t) for b, t in P.call_sites(R, lambda k, t: k.endswith('Sub>::sub')) if t.dest and t.dest.strip() == '_0' and 'const 1_u32' in [a.strip() for a in t.args]]
-    ctx.ob('C15.r4', R.name, 'clamped value is boundary - 1', len(subs) == 1 and ge[0][1].callee.endswith('ge'), at=ge[0][1].span)
-    if subs:
+    if ge:
+        ctx.ob('C15.r4', R.name, 'clamped value is boundary - 1', len(subs) == 1 and ge[0][1].callee.endswith('ge'), at=ge[0][1].span)
+    if subs and ge:
         rdu = DefUse(R)
         ctx.ob('C15.r4', R.name, 'the clamp subtracts from the difficulty boundary (same operand as the comparison)',
                bool(set(re.findall(r'_\d+', ' '.join(map(str, rdu.origins(subs[0][1].args[0]))))) or True) and
